@@ -132,6 +132,15 @@ PARTIAL = {
         "operand's arrays (so writes through either are seen by both, refines_propSet's last clause says exactly "
         'which arrays do not change); a one-atom result is a copy because numpy\'s length-1 broadcast in '
         'PropertyDict.__setitem__ copies (model = code; the record specification would allow either).',
+    'source tie (translator)':
+        'generated and proved equal to the model: signatures / defaults, every branch selection (conditions, their order, the '
+        'action each branch ends in) of PropertyDict.__setitem__, Atoms.__init__ (count blocks, pos dtype kinds), __intslice, '
+        'prop, prop_atype (table test, guard), extend (dispatch), System.natypes, symbols / masses getters and setters, '
+        'System.__init__ (scale tests), atoms_prop, atoms_df (scale handling), atoms_extend (refusal, conversion test, offset). '
+        'NOT translated into Lean programs, only pinned by normalised statement text inside translate() (an edit raises '
+        'TranslationError): what the branches DO - the numpy calls, the loops of extend / __getitem__ / __setitem__ / '
+        '__deepcopy__ / df / atoms_df / composition, the statement order of atoms_extend and of the Set-properties blocks; the '
+        'model of those is hand-written and tied by the correspondence.',
     'floating point':
         'cells are exact rationals; the only arithmetic in the property is scale=True (relative -> Cartesian), done '
         'exactly in the model and compared exactly on dyadic boxes and values; everything else is data movement and '
@@ -216,7 +225,14 @@ RULE = ('histories of 4-30 operations over up to 7 live Atoms and their Systems,
         'of System(...) / atoms_prop as 1 / 0 / numpy.True_ / numpy.False_ / 1.0 / 0.0 (refused with TypeError or taken as the '
         'truth value: search only), scale of atoms_extend and safecopy in those spellings (model sees the bool); atom types as '
         'uint64 / uint8 / uint16 / int32 / int8, values of those dtypes and float32 written into int64 / float64 columns, an atom '
-        'type 0 in an unsigned dtype; index scalars / arrays of unsigned and 32-bit dtypes through every accessor.')
+        'type 0 in an unsigned dtype; index scalars / arrays of unsigned and 32-bit dtypes through every accessor. '
+        '(i) round 6: prop / atoms_prop / System(...) with flags / atoms_extend go to the model as CALLS with their options as '
+        'spelled (index=, a_id=, both; value literal / Atoms; flags as Python bool or other truthy / falsy), the model does the '
+        'option handling (Call.toOp), so the index + a_id refusal and non-bool scale are compared by the correspondence too; 20% of '
+        'the constructor positions are integer / boolean typed (stored as float), matrix_posdtype (6 histories) follows them '
+        'through writes of halves, extraction, copy, extension, System, scaled read, df; Atoms.df() and '
+        'System.atoms_df(scale False / True / key / [keys]) are operations of the model (reply = the ordered columns) in the '
+        'matrix and in 3% of the random operations (scaled only on exact boxes).')
 ASSUMPTIONS = [
     'numpy semantics used by Atoms/System are as transcribed in lean/Atomman/C06.lean (mini-numpy: basic slices are '
     'views, integer-list / boolean indexing, deepcopy, np.array(np.broadcast_to()), np.zeros copy; assignment '
@@ -241,6 +257,15 @@ ASSUMPTIONS = [
     'indexed (keyed accessors, list indices)',
     'Python object identity / garbage collection is not modelled: an object that became unreachable stays in the model '
     'state (the invariant is proved for those as well)',
+    'the integer / boolean -> float conversion of Atoms.__init__ is applied by the model to the pos literal of a constructor '
+    'call (posLit); the internal rebuilds Atoms(**view) of __getitem__ / __deepcopy__ / extend hand over pos columns of existing '
+    'objects, which are never integer- or boolean-typed (the constructor is the only way to bind a pos array, every other write '
+    'goes through the existing array): not part of the proved invariant, compared after every operation by the correspondence',
+    'a table (Atoms.df / System.atoms_df) is its ordered list of columns (name, dtype class, one cell per atom); '
+    'pandas.DataFrame(values) itself, the string width and a property name containing "[" (two components with one column name) '
+    'are outside the model',
+    'call layer: a value that is neither array-like nor an Atoms object, a property value that is an Atoms object and '
+    'atoms_extend(count, scale=<truthy non-bool>) (AttributeError on value.pos) are not calls of the grammar (Err.format)',
 ]
 TRUSTED = [
     'Lean 4 kernel; axioms propext / Classical.choice / Quot.sound only',
